@@ -8,6 +8,7 @@ import NmVerif.Lemmas.LinalgDot
 import NmVerif.Lemmas.LinalgTrace
 import NmVerif.Lemmas.LinalgTensordot
 import NmVerif.Lemmas.LinalgSmall
+import NmVerif.Lemmas.LinalgKron
 /-
   C16 — Linear-algebra routines equal their mathematical definitions.
   Only property statements (+ non-vacuity examples, counterexample theorems) live here; the proofs are in
@@ -225,16 +226,26 @@ example : [2, 3] ∈ shapesOfRank 2 3 ∧ [3, 2] ∈ shapesOfRank 2 3 ∧
 
 /-! ### kron -/
 
-/- FULL STATEMENT, not proved for arbitrary rank:
-   theorem kron_eq_def (sa sb) (Pos sa) (Pos sb) :
-       ∃ r, kron sa sb = some r ∧ r.shape = (specKron sa sb).shape ∧ ∀ d, InShape d r.shape → r.get d = (specKron sa sb).get d
-   What is proved instead: `kron_small_scope_partial` — the full statement (shape and, at every index, the single product
-   term `a[d / b'] · b[d % b']`) for every pair of operand shapes of rank ≤ 2 with extents 1..3 and of ranks (1,3), (3,1),
-   (2,3), (3,2) with extents 1..2 (so the rank-difference recursion of `kron_dst_transpose` is exercised two levels deep),
-   kernel-checked by `decide`.  Missing for arbitrary rank: the closed form of `kron_dst_transpose` (the recursion with
-   pairwise swaps yields "leading axes of the longer operand, then the axes of both interleaved") and the reshape that
-   merges each interleaved pair `(i_t, j_t)` into `i_t·b_t + j_t`. -/
-theorem kron_small_scope_partial (sa sb : Shape)
+/-- `view::kron` = `np.kron` for every pair of operand ranks and positive extents: the shapes are right-aligned (the
+    shorter one padded with leading ones), `out.shape[t] = a'[t]·b'[t]` and
+    `out[d] = a[d[t] / b'[t] …] · b[d[t] % b'[t] …]` — one product term per element, every pair `(i, j)` of operand
+    indices exactly once.  (Behind it: the closed form of `kron_dst_transpose` for all ranks — `kronDstTranspose_eq` —,
+    the interleaving transpose and the reshape that merges each pair `(i_t, j_t)` into `i_t·b_t + j_t`.) -/
+theorem kron_eq_def (sa sb : Shape) (hpb : Pos sb) :
+    ∃ r, kron sa sb = some r ∧ r.shape = (specKron sa sb).shape ∧
+      ∀ d, InShape d (specKron sa sb).shape → r.get d = (specKron sa sb).get d :=
+  kron_eq_spec sa sb hpb
+
+/-- the transposition axes `kron_dst_transpose` computes (a recursion on the rank difference with pairwise swaps) are,
+    for all ranks: the leading axes of the longer operand, then the axes of both operands interleaved -/
+theorem kron_dst_transpose_closed_form (l r : Nat) :
+    kronDstTranspose (l + r + 1) l r = (List.range (l + r)).map (kronAxis l r) :=
+  kronDstTranspose_eq _ l r (by split <;> omega)
+
+example : (List.range 5).map (kronAxis 1 4) = [1, 2, 3, 0, 4] ∧ (List.range 5).map (kronAxis 3 2) = [0, 1, 3, 2, 4] := by decide
+
+/-- cross-check of `kron_eq_def` by kernel evaluation on a small scope (ranks ≤ 2 / extents ≤ 3, ranks up to 3 / extents ≤ 2) -/
+theorem kron_small_scope (sa sb : Shape)
     (h : (sa ∈ shapesOfRank 1 3 ∨ sa ∈ shapesOfRank 2 3) ∧ (sb ∈ shapesOfRank 1 3 ∨ sb ∈ shapesOfRank 2 3)
        ∨ (sa ∈ shapesOfRank 1 2 ∨ sa ∈ shapesOfRank 2 2) ∧ sb ∈ shapesOfRank 3 2
        ∨ sa ∈ shapesOfRank 3 2 ∧ (sb ∈ shapesOfRank 1 2 ∨ sb ∈ shapesOfRank 2 2)) :
